@@ -678,6 +678,10 @@ impl Prop for C09 {
                         ("default", gamedig::games::minecraft::RequestSettings::default(), "gamedig".to_string(), -1),
                         ("from extra settings (host name only)", gamedig::protocols::types::ExtraRequestSettings::default().set_hostname(h.clone()).into(), h.clone(), -1),
                         ("from extra settings (host name, protocol 47)", gamedig::protocols::types::ExtraRequestSettings::default().set_hostname(h.clone()).set_protocol_version(47).into(), h.clone(), 47),
+                        ("from extra settings (protocol 47, host name)", gamedig::protocols::types::ExtraRequestSettings::default().set_protocol_version(47).set_hostname(h.clone()).into(), h.clone(), 47),
+                        ("from extra settings (protocol 47 only)", gamedig::protocols::types::ExtraRequestSettings::default().set_protocol_version(47).into(), "gamedig".to_string(), 47),
+                        ("from extra settings (protocol 0 only)", gamedig::protocols::types::ExtraRequestSettings::default().set_protocol_version(0).into(), "gamedig".to_string(), 0),
+                        ("from extra settings (nothing set)", gamedig::protocols::types::ExtraRequestSettings::default().into(), "gamedig".to_string(), -1),
                     ];
                     for (how, settings, want_host, want_pv) in built {
                         let x = run_query(mc_server(1), Box::new(Faithful), Chooser::new(&[]), || {
